@@ -582,3 +582,79 @@ func (e *pu8Engine) recheck() []*core.Func {
 	}
 	return bad
 }
+
+// sitesOf visits the calls and index expressions of f with the lowest depth
+// (relative to f's entry, plus off) that can hold before each, under every
+// valuation of f's conditions that agrees with fixed.  A call of a conditional
+// helper is not visited as a call: the helper's own sites are visited in its
+// place, under the valuations of its conditions that the caller's valuation
+// allows, so that what a helper needs is judged where its frame was opened.
+func (e *pu8Engine) sitesOf(f *core.Func, off int, fixed map[string]bool, depth int, visit func(g *core.Func, x ast.Node, low int)) (overall int) {
+	var atoms []string
+	if depth == 0 {
+		atoms = atomsWith(e.c.P, f, e.callAtoms(f))
+	} else {
+		seen := map[string]bool{}
+		for _, a := range helperAtoms(f) {
+			nm, _ := normCond(a)
+			if !seen[nm] {
+				seen[nm] = true
+				atoms = append(atoms, nm)
+			}
+		}
+		for _, nm := range atomsWith(e.c.P, f, e.callAtoms(f)) {
+			if !seen[nm] && len(atoms) < 6 {
+				seen[nm] = true
+				atoms = append(atoms, nm)
+			}
+		}
+	}
+	g := cfg.New(f.Body, core.MayReturn(f.Info()))
+	for v := 0; v < 1<<len(atoms); v++ {
+		val := map[string]bool{}
+		ok := true
+		for i, a := range atoms {
+			val[a] = v&(1<<i) != 0
+			if want, has := fixed[a]; has && want != val[a] {
+				ok = false
+			}
+		}
+		if !ok {
+			continue
+		}
+		balanceObs(e.c.P, f, g, func(n ast.Node) []depthEffect { return e.effectsAt(f, n, val) }, val, true, func(x ast.Node, low int) {
+			if off+low < overall {
+				overall = off + low
+			}
+			switch y := x.(type) {
+			case *ast.IndexExpr:
+				visit(f, x, off+low)
+			case *ast.CallExpr:
+				if _, deferred := e.c.P.Parent(y).(*ast.DeferStmt); deferred {
+					return
+				}
+				h := e.calleeOf(f, y)
+				if h != nil && h != e.push && h != e.pop && h.Pkg == f.Pkg && depth < 3 {
+					if s := e.summary(h); s != nil && !s.trivial {
+						hfixed := map[string]bool{}
+						for _, a := range s.atoms {
+							if r, rok := rewriteForCall(h, a, y); rok {
+								nm, p := normCond(r)
+								if cv, known := val[nm]; known {
+									hn, hp := normCond(a)
+									hfixed[hn] = cv == (p == hp)
+								}
+							}
+						}
+						if o := e.sitesOf(h, off+low, hfixed, depth+1, visit); o < overall {
+							overall = o
+						}
+						return
+					}
+				}
+				visit(f, x, off+low)
+			}
+		})
+	}
+	return overall
+}
